@@ -1147,7 +1147,7 @@ impl Prop for C19 {
     }
     fn cases(t: Tier) -> u64 {
         match t {
-            Tier::Quick => 4_000,
+            Tier::Quick => 16_000,
             Tier::Thorough => 120_000,
         }
     }
